@@ -232,6 +232,13 @@ H("ty_retry_info_any_roundtrip", ["C20"], "types", *TY, cap_s=1500, tier="thorou
   functions=["RetryInfo::into_any", "RetryInfo::from_any_ref", "prost::Message::{encode_to_vec,decode}"],
   bounds="all delays with seconds <= 315576000000, nanos < 1e9")
 
+TYM = ("tonic-types/src/richer_error/mod.rs", "types/richer_error.rs")
+H("ty_details_bytes_one", ["C20"], "types_vb", *TYM, cap_s=900, mem_gb=16, tier="thorough", optional=True,
+  obligation="Y3: gen_details_bytes (behind every with_error_details* constructor) writes google.rpc.Status wire bytes that carry the code "
+             "and the detail handed to it - also a detail whose payload is empty - judged against hand-written protobuf bytes",
+  functions=["tonic_types::richer_error::gen_details_bytes", "prost::Message::{encoded_len,encode} for pb::Status / prost_types::Any"],
+  bounds="codes 1..=16, empty message, one detail with an empty type_url and a payload of 0 or 1 symbolic byte",
+  outside=["messages and type URLs (string copies), more than one detail, payloads over one byte"])
 IC = ("tonic/src/service/interceptor.rs", "tonic/interceptor.rs")
 for nm, b in (("ic_no_headers", "empty header map"), ("ic_reserved_header", "one reserved header (te: trailers)"),
               ("ic_insert_metadata", "one reserved header; the interceptor inserts one metadata entry on accept")):
